@@ -3,6 +3,7 @@ package main
 import (
 	"errors"
 	"fmt"
+	"sync"
 	"time"
 
 	tally "github.com/uber-go/tally/v4"
@@ -20,6 +21,10 @@ func runC10(c *mon.Ctx) {
 			c10Stopwatch(c, r.Fork(2))
 		}
 		c10Exec(c, r.Fork(3), i%8 == 1)
+		c10TestScope(c, r.Fork(4))
+		if i%4 == 2 {
+			c10Concurrent(c, r.Fork(5))
+		}
 	})
 }
 
@@ -303,4 +308,256 @@ func c10Exec(c *mon.Ctx, r *mon.Rand, withSleep bool) {
 		}
 	}
 	c.Distinct(mon.Hash64(fmt.Sprint(cached, opts.Prefix, name, outcomes)))
+}
+
+// snapTimer returns the snapshot entries with the given name and tags.
+func snapTimers(ts tally.TestScope, name string, tags map[string]string) [][]time.Duration {
+	var out [][]time.Duration
+	for _, t := range ts.Snapshot().Timers() {
+		if t.Name() == name && mon.TagsEqual(t.Tags(), tags) {
+			out = append(out, append([]time.Duration(nil), t.Values()...))
+		}
+	}
+	return out
+}
+
+// c10TestScope: reporter-less test scopes keep every recorded duration, in
+// call order, whatever passes run in between.
+func c10TestScope(c *mon.Ctx, r *mon.Rand) {
+	pool := newStrPool(r, true, false, false)
+	rc := pool.root(r)
+	rc.Sep = "."
+	ts := tally.VerifNewTestScope(rc.Prefix, copyTagMap(rc.Tags), uint(r.Range(1, 4)))
+	type tsc struct {
+		id ident
+		sc tally.Scope
+	}
+	var scs []tsc
+	var progs []dprog
+	for i, n := 0, r.Range(1, 3); i < n; i++ {
+		p := pool.prog(r, 3)
+		ids, _ := rc.trace(p)
+		if collides(ids) {
+			continue
+		}
+		progs = append(progs, p)
+		ss := p.clone().apply(ts)
+		scs = append(scs, tsc{ids[len(ids)-1], ss[len(ss)-1]})
+	}
+	if len(scs) == 0 {
+		return
+	}
+	c.Eval(1)
+	var ops []string
+	desc := func() interface{} {
+		return map[string]interface{}{"root": rc, "reporters": "none (test scope)", "programs": progs, "ops": ops}
+	}
+	names := []string{"t", "u", pool.names[0]}
+	want := map[string][]time.Duration{}
+	type tk struct {
+		name string
+		tags map[string]string
+	}
+	keys := map[string]tk{}
+	check := func(when string) {
+		for k, w := range want {
+			got := snapTimers(ts, keys[k].name, keys[k].tags)
+			if len(got) != 1 {
+				c.Violation("testscope-timer-entry", map[string]interface{}{"why": fmt.Sprintf("%s: %d snapshot entries for timer %q %v, want 1", when, len(got), keys[k].name, keys[k].tags), "case": desc()})
+				continue
+			}
+			if fmt.Sprint(got[0]) != fmt.Sprint(w) {
+				c.Violation("testscope-timer-values", map[string]interface{}{"why": fmt.Sprintf("%s: timer %q %v holds %v, recorded in order %v", when, keys[k].name, keys[k].tags, got[0], w), "case": desc()})
+			}
+		}
+	}
+	c.Guard("panic-record-testscope", desc, func() {
+		for i, n := 0, r.Range(3, 30); i < n; i++ {
+			switch {
+			case r.Chance(1, 6):
+				tally.VerifReportPass(ts)
+				ops = append(ops, "report pass")
+			case r.Chance(1, 6):
+				check("mid-history")
+				ops = append(ops, "snapshot")
+			default:
+				s := scs[r.Intn(len(scs))]
+				name := names[r.Intn(len(names))]
+				d := r.AnyDuration()
+				ops = append(ops, fmt.Sprintf("Timer(%q).Record(%d) on %q%v", name, d, s.id.Prefix, s.id.Tags))
+				if r.Chance(1, 5) {
+					sw := s.sc.Timer(name).Start()
+					_ = sw
+				}
+				s.sc.Timer(name).Record(d)
+				full := rc.metricName(s.id, name)
+				k := mon.IdentKey(full, s.id.Tags)
+				want[k] = append(want[k], d)
+				keys[k] = tk{full, s.id.Tags}
+				c.Event("testscope-records", 1)
+			}
+		}
+		tally.VerifReportPass(ts)
+		check("at the end")
+	})
+	c.Distinct(mon.Hash64("ts", fmt.Sprint(rc), fmt.Sprint(progs), fmt.Sprint(ops)))
+}
+
+// c10Concurrent: G goroutines released together obtain the same (not yet
+// existing) timers of one scope and record unique durations; each Record must
+// be delivered exactly once, synchronously, and a test scope must keep all of
+// them with each goroutine's values in its own call order.
+func c10Concurrent(c *mon.Ctx, r *mon.Rand) {
+	mode := []string{"test", "plain", "cached", "both"}[r.Intn(4)]
+	prof := mon.RandomProfile(r, []int{tally.VerifMetricProbeMissed, tally.VerifSubscopeUpgrade}, r.Intn(3))
+	prof.Prob[tally.VerifMetricProbeMissed] = r.Range(300, 900)
+	inj := mon.NewDelayInjector(r.U64(), prof, false)
+	inj.Install()
+	defer inj.Uninstall()
+	prec, crec := mon.NewPlainRec(true), mon.NewCachedRec(true)
+	var root tally.Scope
+	var ts tally.TestScope
+	if mode == "test" {
+		ts = tally.VerifNewTestScope("p", map[string]string{"k": "v"}, uint(r.Range(1, 4)))
+		root = ts
+	} else {
+		opts := tally.ScopeOptions{Prefix: "p", Tags: map[string]string{"k": "v"}, OmitCardinalityMetrics: true}
+		if mode == "plain" || mode == "both" {
+			opts.Reporter = prec
+		}
+		if mode == "cached" || mode == "both" {
+			opts.CachedReporter = crec
+		}
+		root, _ = tally.VerifNewRootScope(opts, 0, uint(r.Range(1, 4)))
+	}
+	sc := root
+	scName, scTags := "p", map[string]string{"k": "v"}
+	if r.Bool() {
+		sc = root.SubScope("s")
+		scName = "p.s"
+	}
+	G := r.Range(2, 8)
+	rounds := r.Range(1, 6)
+	per := r.Range(1, 4)
+	c.Eval(1)
+	desc := map[string]interface{}{"mode": mode, "goroutines": G, "rounds": rounds, "records_per_goroutine_and_round": per, "scope": scName}
+	stop := c.Watchdog(300*time.Second, "no-progress", desc)
+	defer stop()
+	type rec struct {
+		name string
+		d    time.Duration
+		mark int64
+	}
+	all := make([][]rec, G)
+	var panics sync.Map
+	for round := 0; round < rounds; round++ {
+		name := fmt.Sprintf("t%d", round)
+		var start, done sync.WaitGroup
+		start.Add(1)
+		for g := 0; g < G; g++ {
+			g := g
+			done.Add(1)
+			go func() {
+				defer done.Done()
+				defer func() {
+					if p := recover(); p != nil {
+						panics.Store(g, fmt.Sprint(p))
+					}
+				}()
+				start.Wait()
+				for k := 0; k < per; k++ {
+					d := time.Duration(int64(round)<<40 | int64(g)<<20 | int64(k) + 1)
+					sc.Timer(name).Record(d)
+					all[g] = append(all[g], rec{name, d, mon.NextSeq()})
+				}
+			}()
+		}
+		start.Done()
+		done.Wait()
+		if r.Bool() {
+			tally.VerifReportPass(root)
+		}
+	}
+	panics.Range(func(k, v interface{}) bool {
+		c.Violation("panic-concurrent-record", map[string]interface{}{"why": v, "case": desc})
+		return true
+	})
+	c.Event("concurrent-first-use-records", int64(G*rounds*per))
+	if mode == "test" {
+		for round := 0; round < rounds; round++ {
+			name := fmt.Sprintf("t%d", round)
+			got := snapTimers(ts, scName+"."+name, scTags)
+			if len(got) != 1 {
+				c.Violation("testscope-timer-entry", map[string]interface{}{"why": fmt.Sprintf("%d snapshot entries for %q", len(got), name), "case": desc})
+				continue
+			}
+			pos := map[time.Duration]int{}
+			for i, d := range got[0] {
+				if _, dup := pos[d]; dup {
+					c.Violation("timer-not-exactly-once", map[string]interface{}{"why": fmt.Sprintf("value %d twice in the snapshot of %q", d, name), "case": desc})
+				}
+				pos[d] = i
+			}
+			n := 0
+			for g := 0; g < G; g++ {
+				last := -1
+				for _, x := range all[g] {
+					if x.name != name {
+						continue
+					}
+					n++
+					p, ok := pos[x.d]
+					if !ok {
+						c.Violation("timer-not-exactly-once", map[string]interface{}{"why": fmt.Sprintf("Record(%d) by goroutine %d on %q (concurrent first use) is missing from the test scope's snapshot (%d of %d values present)", x.d, g, name, len(got[0]), G*per), "case": desc})
+						break
+					}
+					if p < last {
+						c.Violation("testscope-timer-values", map[string]interface{}{"why": fmt.Sprintf("goroutine %d's values of %q are not in call order", g, name), "case": desc})
+					}
+					last = p
+				}
+			}
+			if len(got[0]) != n {
+				c.Violation("timer-not-exactly-once", map[string]interface{}{"why": fmt.Sprintf("%q holds %d values, %d recorded", name, len(got[0]), n), "case": desc})
+			}
+		}
+	} else {
+		var log []mon.Event
+		var other []mon.Event
+		if mode == "plain" {
+			log, other = timerEvents(logOf(prec)), timerEvents(logOf(crec))
+		} else {
+			log, other = timerEvents(logOf(crec)), timerEvents(logOf(prec))
+		}
+		if len(other) != 0 {
+			c.Violation("timer-wrong-reporter", map[string]interface{}{"why": fmt.Sprintf("%d timer deliveries on the reporter that must not receive any", len(other)), "case": desc})
+		}
+		seen := map[int64]mon.Event{}
+		cnt := map[int64]int{}
+		for _, e := range log {
+			seen[e.I] = e
+			cnt[e.I]++
+		}
+		n := 0
+		for g := 0; g < G; g++ {
+			for _, x := range all[g] {
+				n++
+				e, ok := seen[int64(x.d)]
+				if !ok || cnt[int64(x.d)] != 1 {
+					c.Violation("timer-not-exactly-once", map[string]interface{}{"why": fmt.Sprintf("Record(%d) (concurrent first use of %q) was delivered %d times", x.d, x.name, cnt[int64(x.d)]), "case": desc})
+					continue
+				}
+				if e.Name != scName+"."+x.name || !mon.TagsEqual(e.Tags, scTags) {
+					c.Violation("timer-wrong-delivery", map[string]interface{}{"why": fmt.Sprintf("delivered under %q %v", e.Name, e.Tags), "case": desc})
+				}
+				if e.Seq >= x.mark {
+					c.Violation("timer-not-synchronous", map[string]interface{}{"why": "delivery ordered after Record returned", "case": desc})
+				}
+			}
+		}
+		if len(log) != n {
+			c.Violation("timer-not-exactly-once", map[string]interface{}{"why": fmt.Sprintf("%d deliveries for %d records", len(log), n), "case": desc})
+		}
+	}
+	c.Distinct(mon.Hash64("conc", mode, fmt.Sprint(G, rounds, per, scName), fmt.Sprint(r.U64())))
 }
